@@ -283,6 +283,8 @@ func (v *Vue) evaluateNodeAsElement(ctx VueContext, node *html.Node, depth int) 
 
 		newNode.FirstChild = nil
 		for i, c := range newChildren {
+			// the evaluated children are a closed list, as in evaluate
+			c.NextSibling = nil
 			if i == 0 {
 				newNode.FirstChild = c
 			} else {
